@@ -122,6 +122,24 @@ CLAIMED["C17"] = (
     "Lean 4 proof (queue invariant: soundness, completeness, minimality, termination) with model-code correspondence and brute-force oracle",
     "DESIGN.md §5 C17, §10.2")
 
+CLAIMED["C19"] = (
+    "No new model: Props/C19.lean collects, per callback site, the atomicity theorem of the cluster that owns it with the "
+    "callback as an arbitrary partial function failing at an arbitrary call ordinal k — List traits (the k-th item validator "
+    "raising e makes extend / += / slice assignment / whole-value assignment raise exactly e or the guard's TraitError; no effect; "
+    "twin theorem: the outputs of everything executed after the failure are those of the same history without it), Dict and Set "
+    "traits (no effect, no notifier called, failure causes; twin), cached-property getter (no cache entry, next read retries), "
+    "adapter factory (the exception is the factory's own; registry immutable); the scalar validator / default / change-handler "
+    "clauses cite C01/C10/C02 as those land. Correspondence/oracle: systematic fault injection on the real code — the k-th user "
+    "callback invocation of an operation raises TraitError/ValueError/AttributeError/RuntimeError — over List (also through the "
+    "Lean model), nested List/Dict/Set traits, custom validators incl. Either/Tuple members, _name_default and factory defaults, "
+    "property getter/setter, adapter factories, static/dynamic/observe change handlers; deep snapshot before/after, exception "
+    "class, and a fault-free twin for the remainder of the history.",
+    "Trusted: Lean kernel, standard axioms; in the functional models a failing step carries no state, so 'validation precedes "
+    "mutation' is tied by the correspondence and the snapshot oracle, not by proof; the twin comparison observes values, "
+    "contents, events and exception classes only; harness.",
+    "Lean 4 proof (atomicity + twin theorems per cluster) with fault-injection correspondence and twin oracle",
+    "DESIGN.md §5 C19, §10.2")
+
 NOT_YET = "check not built yet in this round (planned in DESIGN.md §9); not claimed until it exists"
 
 
